@@ -51,6 +51,13 @@ CLAIMS = {
         "note": "Trusted: E2 fmt/parse models. Outside: the 185 generated parse/stringify pairs, floats, line-offset bookkeeping (C05), A2ML raw capture, k>=2 cycles beyond the fixpoint argument.",
         "technique": "SMT-based bounded symbolic execution of MIR (z3), native replay",
     },
+    "C07": {
+        "engine": "E2-mirsym",
+        "text": "The skipping routine is executed symbolically on every well-formed unknown element of the bounded shape (keyword with <= 3 arguments, block with <= 3 items incl. nested unknown blocks and comments; identifiers and strictness symbolic) followed by something the enclosing block understands: non-strict => Ok, exactly one warning, cursor on the first token of the remainder; strict => UnknownSubBlock error naming the element.",
+        "design_ref": "DESIGN.md section 4 C07",
+        "note": "Trusted: E2 std models; the tokenizer is executed as well (texts are built per path). Outside: the interaction with each block's real TAG_LIST and the model equality of the whole file with/without the element.",
+        "technique": "SMT-based bounded symbolic execution of MIR (z3), native replay",
+    },
 }
 
 _PENDING = "check not built yet in this revision of /verif (see DESIGN.md section 7 for the order of work)"
